@@ -221,6 +221,62 @@ def model_check(chk, tier):
     chk.extra["transcription_model_checked"] = info
 
 
+STEPSTORES = os.path.join(core.VERIF, "tools", "bin", "stepstores")
+
+
+def conformance(chk, tier, binary):
+    """B1-style binding of the transcription: single-step the real calls of the DEBUG probe (tools/stepstores),
+    log every store into the arena, and let TLC (MemAlgTrace.tla) run the transcription on the same calls
+    with the real constants, demanding the same sequence of stores.  Divergence = model drift (reported,
+    never a verdict)."""
+    ns = [0, 1, 7, 8, 15, 16, 17, 23, 24, 25, 31, 32, 33, 40] if tier == "quick" else list(range(41))
+    dms, sms = ([0, 1, 7], [0, 3, 8]) if tier == "quick" else ([0, 1, 4, 7], [0, 3, 5, 8])
+    calls = []
+    for n in ns:
+        for dm in dms:
+            for sm in sms:
+                calls.append(("memcpy", n, 32 + dm, 128 + sm))
+                calls.append(("memmove", n, 128 + dm, 32 + sm))
+            for delta in (-9, -8, -1, 1, 7, 8, 9):
+                calls.append(("memmove", n, 80 + dm, 80 + dm + delta))
+            calls.append(("memset", n, 32 + dm, 165))
+    inp = os.path.join(chk.work, "steps.in")
+    out = os.path.join(chk.work, "steps.out")
+    log = os.path.join(chk.work, "steps.ndjson")
+    with open(inp, "w") as f:
+        f.write("steps\n" + "".join("%s %d %d %d\n" % c for c in calls))
+    core.run_cmd(["make", "-s", "-C", os.path.join(core.VERIF, "tools"), "bin/stepstores"])
+    p = subprocess.run([STEPSTORES, binary, inp, out, log], stdout=subprocess.PIPE, stderr=subprocess.PIPE, timeout=1500)
+    if p.returncode != 0:
+        raise core.ToolError("stepstores failed: %s" % p.stderr.decode()[-500:])
+    lines = [json.loads(l) for l in open(out) if l.startswith('{"f":"mem') and l.rstrip().endswith("}")]
+    steps = [json.loads(l) for l in open(log)]
+    m = min(len(lines), len(steps))
+    recs = []
+    for c, s in list(zip(lines, steps))[:m]:
+        if "died" in s:
+            break
+        recs.append({"f": c["f"], "n": c["n"], "d": c["d"], "s": c.get("s", 0), "c": c.get("c", 0), "stores": s["stores"]})
+    info = {"calls_single_stepped": len(recs), "of": len(calls), "instructions": sum(s["steps"] for s in steps[:len(recs)])}
+    if recs:
+        trace = os.path.join(chk.work, "steps_trace.ndjson")
+        core.write_ndjson(trace, recs)
+        res = core.run_tlc("MemAlgTrace.tla", "MemAlgTrace.cfg", workers=1, env={"TRACE": trace}, timeout=3000, xmx="4g")
+        core.tlc_must_pass(res, "MemAlgTrace")
+        chk.add_tlc(res)
+        conf = {x["k"] for x in res.printed("CONF")}
+        div = res.printed("DIV")
+        if len(conf) + len({x["k"] for x in div}) != len(recs):
+            raise core.ToolError("MemAlgTrace did not decide every call: %d + %d of %d" % (len(conf), len(div), len(recs)))
+        info.update({"conform": len(conf), "diverged": len({x["k"] for x in div}), "states": res.distinct,
+                     "first_divergences": [dict(x, call=recs[x["k"] - 1]) for x in sorted(div, key=lambda x: x["k"])[:3]]})
+        if div:
+            core.log("C08: model drift - the stores of %d of %d single-stepped calls differ from MemAlg.tla (not a verdict)" % (
+                info["diverged"], len(recs)))
+    chk.extra["model_conformance"] = info
+    chk.extra["model_conformance_ok"] = bool(recs) and info.get("diverged", 1) == 0 and len(recs) == len(calls)
+
+
 def model_level(chk, tier):
     model_check(chk, tier)
     lemma = core.run_tlc("MemRunLemma.tla", "MemRunLemma.cfg" if tier == "quick" else "MemRunLemma_t.cfg", workers=4,
@@ -242,6 +298,7 @@ def run(tier):
         bdir = core.cargo_build(template="probe/mem", release=rel)
         builds["release" if rel else "debug"] = os.path.join(bdir, "memprobe")
 
+    conformance(chk, tier, builds["debug"])
     quick = tier == "quick"
     plans = []   # (tag, cmd, expected counts)
     if quick:
